@@ -31,6 +31,11 @@ def apply(op, pos, text):
     if op == "TruncateAt":
         cut = len(text) * pos // 7
         return text[:cut]
+    # layout-only mutations: the program means the same, but character columns, display columns and byte offsets differ
+    if op == "IndentTabs":
+        return "".join("\t" * pos + ln for ln in text.splitlines(True))
+    if op == "WidePrefix":
+        return "".join("/* " + "\u6f22\u5b57" * pos + " */ " + ln if ln.strip() else ln for ln in text.splitlines(True))
     if op == "RenameRef":
         ids = [m for m in re.finditer(r"(?<![\w\"'.])([A-Z]\w*)(?![\w\"'])", text)]
         if len(ids) < pos:
